@@ -14,14 +14,15 @@ func init() { register("C27", checkC27) }
 
 func checkC27(p *Prog, r *Result, tier string) {
 	r.Technique = "go/cfg dominance and AST shape rules on both ServiceStatusStream implementations (watch-before-get, event classification, full-set publication) and on the helium dispatcher (escape rule for the unsubscribe rendezvous, close/cancel pairing, unconditional dispatch)"
-	r.Explanation = "WG in both backends the watch is established before the current registrations are read (the call that opens the watch dominates the read), so no registration change between the two is lost; EV put-type events add the endpoint and delete-type events remove it; SND the full endpoint set is published after the initial read and after every change; " +
+	r.Explanation = "WG in both backends the watch is established before the current registrations are read (the call that opens the watch dominates the read), so no registration change between the two is lost; EV put-type events add the endpoint and delete-type events remove it; SND the full endpoint set is published after the initial read and after every change; CHG the flag that triggers a publication is only raised (never overwritten) inside a per-event loop, so one changing event in a batch suffices; " +
 		"U1 Unsubscribe's rendezvous with the dispatch loop has an escape: the send on the unsubscribe channel sits in a select whose other case receives from a channel that is closed when the loop goroutine exits (first-statement defer) and on every path of start() that returns without starting it, and the escape case releases the subscriber itself; " +
-		"U2 releasing a subscriber cancels its context, deletes its entry and closes its channel, under a mutex; D1 the loop dispatches the latest status after every event, unsubscribe and tick (dispatch is the unconditional last statement of the loop body) and the latest status is built from the received addresses; D2 delivery to one subscriber has an escape on that subscriber's context."
+		"U2 releasing a subscriber cancels its context, deletes its entry and closes its channel, under a mutex; D1 the loop dispatches the latest status after every event, unsubscribe and tick (dispatch is the unconditional last statement of the loop body) and the latest status is built from the received addresses; D2 delivery to one subscriber has an escape on that same subscriber's own context (not on the loop's)."
 	r.NotCovered = "convergence within one push interval when a live subscriber does not read (delivery is sequential); the store's watch semantics"
 	r.Assumptions = []string{"A3", "A4 etcd watch / redis keyspace notifications deliver every change after the watch is established"}
 	r.min("WG", 2)
 	r.min("EV", 2)
 	r.min("SND", 2)
+	r.min("CHG", 1)
 	r.min("U1", 3)
 	r.min("U2", 1)
 	r.min("D1", 2)
@@ -134,6 +135,66 @@ func checkC27(p *Prog, r *Result, tier string) {
 			}
 			if inLoop {
 				onChange = true
+			}
+		}
+		// CHG: a change flag declared outside a per-event loop and written inside it must be sticky
+		{
+			whyC := ""
+			nflag := 0
+			prod.inspectBody(func(n ast.Node) bool {
+				as, ok := n.(*ast.AssignStmt)
+				if !ok || as.Tok != token.DEFINE || len(as.Lhs) != 1 || len(as.Rhs) != 1 || constBoolName(prod, as.Rhs[0]) != "false" {
+					return true
+				}
+				flag := prod.objOf(as.Lhs[0])
+				// is the flag what guards a publication?
+				guards := false
+				prod.inspectBody(func(x ast.Node) bool {
+					if is, ok := x.(*ast.IfStmt); ok && prod.objOf(is.Cond) == flag {
+						guards = true
+					}
+					return true
+				})
+				if !guards {
+					return true
+				}
+				nflag++
+				prod.inspectBody(func(x ast.Node) bool {
+					w, ok := x.(*ast.AssignStmt)
+					if !ok || w == as || len(w.Lhs) != 1 || prod.objOf(w.Lhs[0]) != flag {
+						return true
+					}
+					// nested in a loop that starts after the declaration?
+					inInner := false
+					prod.inspectBody(func(y ast.Node) bool {
+						var b *ast.BlockStmt
+						switch l := y.(type) {
+						case *ast.RangeStmt:
+							b = l.Body
+						case *ast.ForStmt:
+							b = l.Body
+						}
+						if b != nil && b.Pos() > as.Pos() && b.Pos() <= w.Pos() && w.End() <= b.End() {
+							inInner = true
+						}
+						return true
+					})
+					if !inInner {
+						return true
+					}
+					sticky := constBoolName(prod, w.Rhs[0]) == "true"
+					if be, ok := unparen(w.Rhs[0]).(*ast.BinaryExpr); ok && be.Op == token.LOR && (prod.objOf(be.X) == flag || prod.objOf(be.Y) == flag) {
+						sticky = true
+					}
+					if !sticky {
+						whyC = "the change flag is overwritten by each event of a response (`" + exprStr(w.Lhs[0]) + " = " + exprStr(w.Rhs[0]) + "` at " + p.pos(w) + "): when the last event of a batch changes nothing, an earlier real change is not published and subscribers keep a stale set"
+					}
+					return true
+				})
+				return true
+			})
+			if nflag > 0 {
+				r.check2(whyC, "CHG", be.name+" / a change seen in any event of a batch is published", p.pos(prod.Lit), "the flag is only ever raised inside the per-event loop")
 			}
 		}
 		r.check(initial && onChange, "SND", be.name+" / the full set is published initially and after every change", p.pos(prod.Lit), "ch <- eps.ToSlice() after the read and inside the watch loop",
@@ -395,16 +456,42 @@ func checkC27(p *Prog, r *Result, tier string) {
 			return true
 		}
 		send, esc := false, false
+		var sendBase types.Object
+		wrongCtx := ""
+		// the send case comes first in source; make sure it is seen before the escape
+		for _, cc := range sel.Body.List {
+			if ss, ok := cc.(*ast.CommClause).Comm.(*ast.SendStmt); ok {
+				if cs, ok := unparen(ss.Chan).(*ast.SelectorExpr); ok {
+					if enc := p.enclosing(DP.Pkg, cs.Pos()); enc != nil {
+						sendBase = enc.objOf(cs.X)
+					}
+				}
+			}
+		}
 		for _, cc := range sel.Body.List {
 			cl := cc.(*ast.CommClause)
 			switch c := cl.Comm.(type) {
 			case *ast.SendStmt:
 				send = true
+				if cs, ok := unparen(c.Chan).(*ast.SelectorExpr); ok {
+					if enc := p.enclosing(DP.Pkg, cs.Pos()); enc != nil {
+						sendBase = enc.objOf(cs.X)
+					}
+				}
 			case *ast.ExprStmt:
 				if u, ok := unparen(c.X).(*ast.UnaryExpr); ok && u.Op == token.ARROW {
 					if call, ok := unparen(u.X).(*ast.CallExpr); ok {
 						if s2, ok := unparen(call.Fun).(*ast.SelectorExpr); ok && s2.Sel.Name == "Done" {
-							esc = true
+							// the context must be the subscriber entry's own (a field of the same value the send goes to)
+							if fsel, ok := unparen(s2.X).(*ast.SelectorExpr); ok && sendBase != nil {
+								enc := p.enclosing(DP.Pkg, fsel.Pos())
+								if enc != nil && enc.objOf(fsel.X) == sendBase {
+									esc = true
+								}
+							}
+							if !esc {
+								wrongCtx = exprStr(s2.X)
+							}
 						}
 					}
 				}
@@ -412,6 +499,8 @@ func checkC27(p *Prog, r *Result, tier string) {
 		}
 		if send && esc {
 			why = ""
+		} else if send && wrongCtx != "" {
+			why = "the escape of a delivery waits on `" + wrongCtx + ".Done()`, not on the subscriber's own context: a subscriber that left while a delivery was in flight blocks the loop, which then serves neither the other subscribers nor Unsubscribe"
 		}
 		return true
 	})
